@@ -10,7 +10,6 @@ import (
 	"math/big"
 	"os"
 	"path/filepath"
-	"sort"
 	"testing"
 	"time"
 
@@ -22,8 +21,10 @@ import (
 	bank "github.com/cosmos/cosmos-sdk/x/bank/types"
 	gethcommon "github.com/ethereum/go-ethereum/common"
 	"github.com/ethereum/go-ethereum/core/vm"
+	"github.com/ethereum/go-ethereum/crypto"
 
 	"github.com/NibiruChain/nibiru/v2/eth"
+	"github.com/NibiruChain/nibiru/v2/eth/crypto/ethsecp256k1"
 	"github.com/NibiruChain/nibiru/v2/x/common/asset"
 	"github.com/NibiruChain/nibiru/v2/x/common/testutil/testapp"
 	"github.com/NibiruChain/nibiru/v2/x/evm"
@@ -79,6 +80,14 @@ func repoRoot() string {
 func newWorld(t *testing.T) *world {
 	w := &world{deps: evmtest.NewTestDeps()}
 	deps := &w.deps
+	// deterministic sender: calldata in replay files embeds addresses derived from it
+	priv := &ethsecp256k1.PrivKey{Key: gethcommon.LeftPadBytes([]byte{0xc0, 0x08, 0x01}, 32)}
+	ecdsaKey, err := priv.ToECDSA()
+	if err != nil {
+		t.Fatal(err)
+	}
+	sAddr := crypto.PubkeyToAddress(ecdsaKey.PublicKey)
+	deps.Sender = evmtest.EthPrivKeyAcc{EthAddr: sAddr, NibiruAddr: eth.EthAddrToNibiruAddr(sAddr), PrivKey: priv, KeyringSigner: evmtest.NewSigner(priv)}
 	deps.Ctx = deps.Ctx.WithGasMeter(sdk.NewInfiniteGasMeter()).WithBlockTime(time.Unix(1_700_000_000, 0).UTC())
 	app := deps.App
 	fund := func(a sdk.AccAddress, c sdk.Coins) {
@@ -161,26 +170,36 @@ func newWorld(t *testing.T) *world {
 	return w
 }
 
-// digest hashes every key/value of the bank, evm, wasm and oracle stores as seen from ctx.
-func (w *world) digest(ctx sdk.Context) string {
+// digest hashes every key/value of the bank, evm, wasm and oracle stores as seen from ctx
+// (skip: entries left out).
+func (w *world) digest(ctx sdk.Context, skip func(store string, key []byte) bool) string {
 	h := sha256.New()
 	ctx = ctx.WithGasMeter(sdk.NewInfiniteGasMeter())
 	for _, k := range w.storeKeys {
 		st := ctx.MultiStore().GetKVStore(k)
 		it := st.Iterator(nil, nil)
-		var lines []string
+		n := 0
 		for ; it.Valid(); it.Next() {
-			lines = append(lines, hex.EncodeToString(it.Key())+"="+hex.EncodeToString(it.Value()))
+			if skip != nil && skip(k.Name(), it.Key()) {
+				continue
+			}
+			fmt.Fprintf(h, "%x=%x\n", it.Key(), it.Value())
+			n++
 		}
 		it.Close()
-		sort.Strings(lines)
-		fmt.Fprintf(h, "#%s:%d\n", k.Name(), len(lines))
-		for _, l := range lines {
-			h.Write([]byte(l))
-			h.Write([]byte{'\n'})
-		}
+		fmt.Fprintf(h, "#%s:%d\n", k.Name(), n)
 	}
 	return hex.EncodeToString(h.Sum(nil))[:16]
+}
+
+func word(b *big.Int) []byte { return gethcommon.LeftPadBytes(b.Bytes(), 32) }
+
+// fwdInput is the calldata of a forwarder: target, gas, value, payload.
+func fwdInput(target gethcommon.Address, gas uint64, value *big.Int, payload []byte) []byte {
+	in := append([]byte{}, gethcommon.LeftPadBytes(target.Bytes(), 32)...)
+	in = append(in, word(new(big.Int).SetUint64(gas))...)
+	in = append(in, word(value)...)
+	return append(in, payload...)
 }
 
 // frame tracer: records the precompile sub-call frames (forwarded gas, gas used, error).
